@@ -200,7 +200,7 @@ CHECKS = {
           "working directory and entry: a successful load lists each module once, places every imported module (symbol or wildcard, importer "
           "excepted) before its importer, has checked that each declares the imported package, contains the entry and exactly one main; symbol "
           "resolution returns the first root in the documented order (search paths first for bloch.*) that has the file, a wildcard import the whole "
-          "package directory of the first root that holds a module; the traversal "
+          "package directory of the first root that holds a module; the implicitly loaded root module bloch.lang.Object is held to the package rule too; the traversal "
           "terminates on every import graph (cyclic or not). Tied by random and hand-written trees written to disk and loaded through the public "
           "ModuleLoader, comparing merged order or diagnostic class/category with the extracted model. 'Import cycle' is never a false alarm (it is "
           "answered only when some module reaches itself through imports as they resolve on that file system), and a load that succeeded has no "
